@@ -102,6 +102,57 @@ def make_adapter(comp_name, idx, beh, ctx):
     return AdapterContainer(ProbeAdapter(), ProbeIo())
 
 
+def make_epics_adapter(comp_name, ctx):
+    """the shipped EpicsAdapter class driven without a network: record setters are recorders"""
+    from tickit.adapters.epics import EpicsAdapter, InputRecord
+    from tickit.core.adapter import AdapterContainer, AdapterIo
+
+    class A(EpicsAdapter):
+        def on_db_load(self):
+            pass
+
+    a = A()
+    counter = {"n": 0}
+
+    def setter(v, name=comp_name):
+        ctx["trace"].log("record-set", comp=name, value=v)
+
+    def getter():
+        counter["n"] += 1
+        return counter["n"]
+
+    rec = InputRecord(f"{comp_name}:REC", setter, lambda: None)
+    a.link_input_on_interrupt(rec, getter)
+
+    class Io(AdapterIo):
+        async def setup(self, adapter, raise_interrupt):
+            adapter.interrupt = raise_interrupt
+            await asyncio.Event().wait()
+
+    return AdapterContainer(a, Io())
+
+
+def make_command_adapter(comp_name, ctx):
+    """a shipped-style CommandAdapter subclass (no server is started)"""
+    from tickit.adapters.specifications.regex_command import RegexCommand
+    from tickit.adapters.tcp import CommandAdapter
+    from tickit.core.adapter import AdapterContainer, AdapterIo
+
+    class A(CommandAdapter):
+        def after_update(self):
+            ctx["trace"].log("after_update", comp=comp_name, adapter="command", idx=-1)
+
+        @RegexCommand(rb"X", interrupt=True)
+        async def x(self) -> bytes:
+            return b"x"
+
+    class Io(AdapterIo):
+        async def setup(self, adapter, raise_interrupt):
+            await asyncio.Event().wait()
+
+    return AdapterContainer(A(), Io())
+
+
 class DuckConfig:
     """stands in for a ComponentConfig (the scheduler and SystemComponent only use
     `.name`, `.inputs` and `config()`)."""
@@ -124,6 +175,10 @@ def build_component(comp, ctx):
     if comp["kind"] == "dev":
         beh = comp.get("beh", {})
         adapters = [make_adapter(comp["name"], i, beh, ctx) for i in range(beh.get("n_adapters", 1))]
+        if beh.get("epics"):
+            adapters.append(make_epics_adapter(comp["name"], ctx))
+        if beh.get("command"):
+            adapters.append(make_command_adapter(comp["name"], ctx))
         dc = DeviceComponent(name=comp["name"], device=make_device(comp["name"], beh, ctx), adapters=adapters)
         ctx["components"][comp["name"]] = dc
         return dc
